@@ -153,6 +153,8 @@ func (h *h18) spendScenarios() {
 	h.doWithdraw("ok_Name9", []int{1}, []sdk.Coin{c18coin("ukex", 10)})
 	h.doWithdraw("ok_Name9", []int{1, 2, 1}, []sdk.Coin{c18coin("ueth", 1), c18coin("ukex", 3)})
 	h.doWithdraw("ok_Name9", []int{4}, []sdk.Coin{c18coin("ukex", 1)})             // not a beneficiary
+	h.doWithdraw("ok_Name9", []int{1, 4}, []sdk.Coin{c18coin("ukex", 2)})          // a beneficiary first, then a stranger: nothing may stay of the first payment
+	h.doWithdraw("ok_Name9", []int{2, 1, 4, 2}, []sdk.Coin{c18coin("ueth", 1)})
 	h.doWithdraw("ok_Name9", []int{1, 2}, []sdk.Coin{c18coin("ukex", 1_000_000)})  // more than recorded
 	h.doWithdraw("ok_Name9", []int{1}, []sdk.Coin{c18coin("ukex", 1), c18coin("ueth", 1)}) // invalid list
 	h.doWithdraw("ok_Name9", nil, []sdk.Coin{c18coin("ukex", 1)})
